@@ -54,7 +54,10 @@ func shardConnectorEventFilter(shard, totalShards int) ConnectorEventFilter {
 func shardFilter(shard, totalShards int) EventFilter {
 	return func(e *Event) bool {
 		if totalShards > 1 {
-			return e.ID%int64(totalShards) != int64(shard)-1
+			// The remainder of a negative ID (connector event IDs are hashes cast to int64) is negative in Go:
+			// shift it into [0, total) so that exactly one shard takes the event.
+			total := int64(totalShards)
+			return ((e.ID%total)+total)%total != int64(shard)-1
 		}
 
 		return false
